@@ -233,6 +233,34 @@ fn run19_inner(op: &str, a: &[Arg]) -> String {
                 .to_string()
             }
         },
+        // the file entry point; the argument is the hex of the raw bytes (`-` = no such file)
+        "csv.filebytes" => {
+            let arg = match &a[0] { Arg::A(x) | Arg::X(x) => x.clone(), _ => panic!("HARNESS") };
+            let dir = std::env::var("VERIF_TMP").unwrap_or_else(|_| "/verif/.build/tmp".to_string());
+            let _ = std::fs::create_dir_all(&dir);
+            let path = format!("{}/c19-{}.csv", dir, std::process::id());
+            let _ = std::fs::remove_file(&path);
+            if arg != "-" {
+                let arg = arg.trim_start_matches('h').to_string();
+                let bytes: Vec<u8> = (0..arg.len() / 2).map(|i| u8::from_str_radix(&arg[2 * i..2 * i + 2], 16).unwrap_or(b'?')).collect();
+                std::fs::write(&path, bytes).expect("HARNESS: write");
+            }
+            let r = TruthTable::from_csv_file(&path);
+            let _ = std::fs::remove_file(&path);
+            match r {
+                Ok(t) => obs(&Val::T(t)),
+                Err(e) => {
+                    use biodivine_boolean_functions::table::csv::error::TruthTableFromCsvError as Er;
+                    match e {
+                        Er::UnexpectedEof => "EXC:EOFError",
+                        Er::NonBooleanCellValue { .. } => "EXC:TypeError",
+                        Er::IOError(_) => "EXC:OSError",
+                        _ => "EXC:RuntimeError",
+                    }
+                    .to_string()
+                }
+            }
+        }
         "csv.to0" => match f(&a[0]) { Val::T(t) => t.to_csv(), _ => panic!("HARNESS") },
         "render" => match f(&a[0]) {
             // the Python method takes one formatting for inputs and outputs
